@@ -206,14 +206,14 @@ def report(ctx, res, write_ev=True):
 
 
 def acquire_run_slot(tier='quick'):
-    """Machine-wide FIFO semaphore: at most VERIF_SLOTS (default 4) vcheck runs at a time, plus one slot
+    """Machine-wide FIFO semaphore: at most VERIF_SLOTS (default 3) vcheck runs at a time, plus one slot
     that only quick-tier runs may take, so that tier deadlines and the E3 watchdogs measure the check and
     not a dozen neighbours (several checks are routinely run side by side while the machinery is being
     developed; each uses all 16 cores).  Waiters queue by arrival time (ticket files), dead waiters'
     tickets are discarded.  A single run never waits.  The returned file object keeps the lock until
     the process exits."""
     import fcntl
-    n = int(os.environ.get('VERIF_SLOTS', '4'))
+    n = int(os.environ.get('VERIF_SLOTS', '3'))
     if n <= 0:
         return None
     d = '/var/tmp/squid-verif-slots'
